@@ -156,3 +156,11 @@ WINDOW = Ob("C15-W1", "R-ORDER", "merge window accumulator, structural clauses o
 
 from ..obs import witness as WI
 WITNESSES = Ob("C12-T1w", "R-TYPE", "compile_fail witnesses with compiling twins: halves not Clone, await/expect_closed_write consume the buffer, destination moved into switch", WI.ob_witnesses, floor=5, tier="thorough")
+
+from ..obs import infotools as IT
+INFO_TOOLS = Ob("C06-I1", "R-TABLE", "info tools report the stored summary: label -> expression table, identical mean/variance derivation in bigwiginfo and bigbedinfo", IT.ob_info_tools, floor=2)
+MAGICS = Ob("C09-M1", "R-TABLE", "BIGWIG/BIGBED/CIR_TREE/CHROM_TREE magic constants equal the published values", WL.ob_magics, floor=4)
+REOPEN = Ob("C03-R1", "R-FLOW", "reopened readers: same path reopened, info cloned, ReopenableFile forwards seek/read unchanged", QU.ob_reopen, floor=4)
+
+from ..obs import argnames as AN
+ARG_NAMES = Ob("C00-A1", "R-FLOW", "swapped-argument rule: no identifier argument is passed under the name of a different same-typed parameter of the callee (repo-wide)", AN.ob_arg_names)
